@@ -4,14 +4,21 @@ C18 — State values behave as immutable Fock states; herald bookkeeping round-t
 Model: LW.Model.StateVal (State, AState, client/alias world, addHeralds/removeHeralds, dbToDec/decToDb,
 processSeed, permRows).  Theorems: LW/Properties/C18.lean.
 
-Five case kinds, all generated from ctx.rng and replayable from their JSON form:
+Six case kinds, all generated from ctx.rng and replayable from their JSON form:
   state    a State and a list of API queries (counts, str, int / slice subscripts, +, merge, ==,
            refused assignments, client programs that mutate everything the API hands out)
   astate   the same for AnnotatedState (label lists in arbitrary order, non-list elements)
   heralds  add_heralds_to_state / remove_heralds_from_state for dictionaries in any key order,
            out-of-range keys, arbitrary removal lists
   db       db_loss_to_decimal / decimal_to_db_loss on exact (x, 10^(-|x|/10)) pairs and the guard
-  rand     random_permutation / random_unitary for every kind of seed
+  rand     random_permutation / random_unitary for every kind of seed (Python / numpy ints of every width, floats, Fractions,
+           Decimals, bools, None, non-numbers) at the boundary values 0, -0.0, 1, 2**31, 2**32-1, 2**32, 2**53, 2**63-1, 2**64-1
+           and random ones: each called repeatedly with the same seed (reproducible), with the equal Python integer (same
+           matrix) and with a neighbouring seed (different matrix); refused seeds raise TypeError also when falsy
+  alias    (oracle-only) two-step aliasing probes: a list obtained from a State / AnnotatedState by any accessor (.s, .s[i],
+           obj[i], iteration, unpacking, reversed, slices, +, merge, copy, constructor from the state, herald helpers) or
+           from a state derived from it is changed in place by any list operation; str / repr / hash / counts / contents of
+           every state seen so far must stay what they were
 Every case is run on lightworks and on the model (corr: differences) and the clauses of the property
 are evaluated on the implementation against plain Python list semantics (oracle: failures).
 """
@@ -48,7 +55,13 @@ TRUSTED = [
 ASSUMPTIONS = [
     "correspondence check: states <= 9 (thorough 14) modes, occupations in [-3, 14], <= 5 labels per mode, <= 4 (7) heralds, "
     "N <= 7 (10) for random matrices (theorems are unbounded)",
-    "dB round trip checked for |x| <= 60 dB with tolerance 1e-9 + 4e-15 * 10^(|x|/10) (float conditioning of 1 - 10^(-x/10))",
+    "dB round trip checked for |x| <= 60 dB with tolerance 1e-9 + 4e-15 * 10^(|x|/10) (float conditioning of 1 - 10^(-x/10)); "
+    "exact pairs up to 156 dB with 1e-9 when the decimal loss is exact in a float; beyond (80 dB .. inf) range, sign symmetry, "
+    "monotonicity and the guard at exactly 1.0 only (oracle-only)",
+    "seeds: -0.0, numpy bools, Fractions and Decimals equal to an integer are accepted as that integer (what the code does; "
+    "the documentation only says 'integer'); numpy / scipy refuse seeds outside [0, inf) / [0, 2**32) with ValueError",
+    "a different seed gives a different matrix: relies on numpy's / scipy's generators not colliding for neighbouring seeds "
+    "(12 x 12 permutations, chance 1/12!)",
     "mutation of the list object passed to State(...) by its owner is not counted as mutation through the State API",
 ]
 
@@ -195,6 +208,66 @@ def gen_astate_case(ctx: Ctx, rng) -> dict:
     return {"kind": "astate", "rows": rows, "q": qs}
 
 
+# two-step aliasing probes: obtain a mutable value from the API by some accessor, mutate it in place, look at the state again
+ACCESSORS = {
+    "state": ["s", "list", "unpack", "reversed", "slice", "add", "radd", "merge", "copy", "deepcopy", "ctor", "heralds"],
+    "astate": ["s", "s_row", "getitem", "list", "for", "next", "unpack", "reversed", "slice", "add", "radd", "merge", "copy",
+               "deepcopy", "ctor"],
+}
+MUTATIONS = ["append", "clear", "setitem", "sort", "reverse", "extend", "iadd", "pop", "insert", "del", "imul", "inner"]
+
+
+def gen_alias_case(ctx: Ctx, rng) -> dict:
+    typ = rng.choice(["state", "astate"])
+    if typ == "state":
+        v = gen_occ(rng, n=rng.randint(0, 6))
+    else:
+        v = gen_rows(rng, n=rng.randint(0, 5))
+    n = len(v)
+    prog = []
+    for _ in range(rng.randint(1, 4)):
+        acc = rng.choice(ACCESSORS[typ])
+        op = [acc]
+        if acc in ("s_row", "getitem"):
+            op.append(rng.randint(-n, n - 1) if n else 0)
+        elif acc == "slice":
+            op += gen_slice(rng, n, False)
+        elif acc in ("add", "radd"):
+            op.append(gen_occ(rng, n=rng.randint(0, 3)) if typ == "state" else gen_rows(rng, n=rng.randint(0, 3)))
+        elif acc == "merge":
+            op.append(gen_occ(rng, n=n) if typ == "state" else gen_rows(rng, n=n))
+        prog.append(op)
+        for _ in range(rng.randint(1, 3)):
+            prog.append(["mut", rng.randrange(64), rng.choice(MUTATIONS), rng.randint(0, 9)])
+    return {"kind": "alias", "type": typ, "v": v, "prog": prog}
+
+
+def alias_corpus() -> list:
+    """every accessor x every in-place mutation, for both kinds of state (directed stream)"""
+    out = []
+    for typ, v, other in (("state", [1, 0, 2], [0, 3]), ("astate", [[1, 0], [], [2]], [[4], []])):
+        for acc in ACCESSORS[typ]:
+            op = [acc]
+            if acc in ("s_row", "getitem"):
+                op.append(0)
+            elif acc == "slice":
+                op += [None, None, None]
+            elif acc in ("add", "radd"):
+                op.append(other)
+            elif acc == "merge":
+                op.append([0, 1, 0] if typ == "state" else [[], [7], [3]])
+            for mut in MUTATIONS:
+                out.append({"kind": "alias", "type": typ, "v": v, "prog": [op] + [["mut", h, mut, 9] for h in range(6)]})
+            if acc == "slice":
+                for sl_ in ([0, 2, None], [None, None, -1], [1, None, None]):
+                    out.append({"kind": "alias", "type": typ, "v": v, "prog": [[acc, *sl_]] + [["mut", h, "append", 9] for h in range(6)]
+                                + [["mut", h, "clear", 0] for h in range(6)]})
+            if acc in ("add", "radd"):  # an empty operand: the sum equals the state itself
+                out.append({"kind": "alias", "type": typ, "v": v, "prog": [[acc, []]] + [["mut", h, "append", 9] for h in range(6)]
+                            + [["mut", h, "inner", 9] for h in range(6)]})
+    return out
+
+
 def gen_heralds_case(ctx: Ctx, rng) -> dict:
     s = gen_occ(rng, n=rng.randint(0, 10 if SIZE["big"] else 7))
     nh = rng.choice([0, 1, 1, 2, 2, 3, 4] + ([5, 6, 7] if SIZE["big"] else []))
@@ -213,32 +286,92 @@ def gen_heralds_case(ctx: Ctx, rng) -> dict:
     return {"kind": "heralds", "s": s, "h": h, "modes": modes, "as_state": rng.random() < 0.5}
 
 
+DB_SPECIAL = ["inf", "-inf", "-0.0", "nextafter(1,2)", "nextafter(0,-1)", "int0", "int1", "1e300"]
+DB_LARGE = [80.0, 100.0, 120.0, 150.0, 156.0, 159.0, 160.0, 200.0, 323.0, 1e3, 1e6, 1e300, float("inf")]
+DB_ARGTYPES = ["float", "float", "int", "np.float64", "np.int64", "fraction"]
+
+
 def gen_db_case(ctx: Ctx, rng) -> dict:
     r = rng.random()
     if r < 0.2:
-        # the guard of decimal_to_db_loss
+        # the guard of decimal_to_db_loss: just outside [0, 1), the two ends, values that round to an end
+        if rng.random() < 0.3:
+            return {"kind": "db", "mode": "guard", "special": rng.choice(DB_SPECIAL)}
+        k = rng.choice([10, 30, 40, 52, 53, 54, 60, 80])
         l = rng.choice([Fraction(1), Fraction(-1, 8), Fraction(5, 4), Fraction(-3), Fraction(1) + Fraction(1, 2 ** 40),
-                        Fraction(-1, 2 ** 60), Fraction(0)])
+                        Fraction(-1, 2 ** 60), Fraction(0), Fraction(2), Fraction(1) + Fraction(1, 2 ** k), -Fraction(1, 2 ** k),
+                        Fraction(1) - Fraction(1, 2 ** (54 + k % 7))])  # the last rounds to exactly 1.0
         return {"kind": "db", "mode": "guard", "l": frac_str(l)}
-    if r < 0.6:
-        # exact pair: transmission p in (0, 1] rational, dB value x = -10 log10 p
-        den = rng.choice([1, 2, 4, 5, 8, 10, 16, 100, 1000, 10 ** 5])
-        p = Fraction(rng.randint(1, den), den)
+    if r < 0.62:
+        # exact pair: transmission p in (0, 1] rational, dB value x = -10 log10 p; p close to 0 (decimal loss close to 1),
+        # close to 1 (0 dB side) and exactly 1 (0 dB) are drawn on purpose
+        den = rng.choice([1, 2, 4, 5, 8, 10, 16, 100, 1000, 10 ** 5, 2 ** rng.randint(5, 52), 2 ** 52, 10 ** rng.randint(6, 15)])
+        num = rng.choice([1, 1, rng.randint(1, min(den, 9)), den, den - 1 if den > 1 else 1, rng.randint(1, den), rng.randint(1, den)])
+        p = Fraction(num, den)
         return {"kind": "db", "mode": "pair", "p": frac_str(p), "neg": rng.random() < 0.5}
-    # round trips on arbitrary floats
-    x = rng.choice([0.0, rng.uniform(0, 3), rng.uniform(0, 60), -rng.uniform(0, 60), float(rng.randint(0, 40))])
-    return {"kind": "db", "mode": "round", "x": x}
+    if r < 0.72:
+        # beyond the range in which the round trip is well conditioned (oracle-only)
+        return {"kind": "db", "mode": "large", "x": rng.choice(DB_LARGE) * rng.choice([1, -1])}
+    # round trips on arbitrary floats; whole numbers also as int / numpy / Fraction arguments
+    x = rng.choice([0.0, -0.0, rng.uniform(0, 3), rng.uniform(0, 60), -rng.uniform(0, 60), float(rng.randint(0, 40)),
+                    -float(rng.randint(0, 40)), 10.0 ** -rng.randint(1, 300), -(10.0 ** -rng.randint(1, 16)), 60.0, -60.0])
+    case = {"kind": "db", "mode": "round", "x": x}
+    if x == int(x) and rng.random() < 0.6:
+        case["argtype"] = rng.choice(DB_ARGTYPES)
+    return case
 
 
-SEED_KINDS = ["int", "int", "int", "none", "bool", "float_int", "float_frac", "np_int", "np_float", "str", "nan", "bigint", "negint"]
+def db_arg(x: float, argtype: str):
+    if argtype == "int":
+        return int(x)
+    if argtype == "fraction":
+        return Fraction(int(x))
+    if argtype.startswith("np."):
+        t = getattr(np, argtype[3:])
+        return t(int(x)) if "int" in argtype else t(x)
+    return x
+
+
+SEED_KINDS = ["int", "int", "int", "none", "bool", "float_int", "float_int", "float_negint", "float_frac", "np_int", "np_int",
+              "np_float", "np_bool", "fraction", "fraction_frac", "decimal", "other", "other", "bigint", "negint"]
+# values at which seed handling is most likely to change: zero (falsy), one, the edges of the 32 / 53 / 63 / 64 bit ranges
+SEED_BOUNDARY = [0, 0, 0, 0, 1, 1, 2, 2 ** 31 - 1, 2 ** 31, 2 ** 32 - 1, 2 ** 32 - 1, 2 ** 32, 2 ** 53, 2 ** 63 - 1, 2 ** 64 - 1]
+NP_INTS = ["int8", "int16", "int32", "int64", "uint8", "uint16", "uint32", "uint64", "intp"]
+NP_FLOATS = ["float64", "float64", "float32", "float16", "longdouble"]
+N_OTHER = 17
 
 
 def gen_rand_case(ctx: Ctx, rng) -> dict:
-    return {"kind": "rand", "N": rng.randint(1, 10 if SIZE["big"] else 7), "seed_kind": rng.choice(SEED_KINDS), "v": rng.randint(0, 2 ** 20)}
+    kind = rng.choice(SEED_KINDS)
+    v = rng.choice(SEED_BOUNDARY) if rng.random() < 0.5 else rng.randint(0, 2 ** 20)
+    case = {"kind": "rand", "N": rng.randint(1, 10 if SIZE["big"] else 7), "seed_kind": kind, "v": v}
+    if kind == "np_int":
+        case["np"] = rng.choice(NP_INTS)
+    elif kind == "np_float":
+        case["np"] = rng.choice(NP_FLOATS)
+    elif kind == "float_int" and v == 0 and rng.random() < 0.5:
+        case["negzero"] = True
+    elif kind == "other":
+        case["which"] = rng.randrange(N_OTHER)
+    return case
 
 
-def make_seed(kind: str, v: int):
+def real_spec(x) -> dict:
+    """model seed for a finite real number held in a float-like object"""
+    f = float(x)
+    if math.isnan(f) or math.isinf(f):
+        return {"t": "other"}
+    if isinstance(x, np.longdouble):  # wider than a float: whole part and remainder separately
+        whole = int(x)
+        return {"t": "real", "v": frac_str(Fraction(whole) + Fraction(float(x - np.longdouble(whole))))}
+    return {"t": "real", "v": frac_str(Fraction(f))}
+
+
+def make_seed(kind: str, v: int, case: dict | None = None):
     """-> (python seed object, model seed spec)"""
+    import decimal
+
+    case = case or {}
     if kind == "int":
         return v, {"t": "int", "v": v}
     if kind == "bigint":
@@ -250,17 +383,44 @@ def make_seed(kind: str, v: int):
     if kind == "bool":
         return bool(v % 2), {"t": "bool", "v": bool(v % 2)}
     if kind == "float_int":
-        return float(v), {"t": "real", "v": str(v)}
+        x = -0.0 if case.get("negzero") else float(v)  # -0.0 == 0: the integer 0 (what the code does; documented here)
+        return x, real_spec(x)
+    if kind == "float_negint":
+        x = -float(v) - 1.0
+        return x, real_spec(x)
     if kind == "float_frac":
-        return v + 0.5, {"t": "real", "v": frac_str(Fraction(2 * v + 1, 2))}
+        x = v + 0.5  # for v >= 2**53 this float is a whole number again: the model is told what the float really is
+        return x, real_spec(x)
     if kind == "np_int":
-        return np.int64(v), {"t": "real", "v": str(v)}
+        t = np.dtype(case.get("np", "int64"))
+        info = np.iinfo(t)
+        x = t.type(v % (int(info.max) + 1))
+        return x, {"t": "real", "v": str(int(x))}
     if kind == "np_float":
-        return np.float64(v), {"t": "real", "v": str(v)}
+        t = np.dtype(case.get("np", "float64"))
+        with warnings.catch_warnings():
+            warnings.simplefilter("ignore")
+            x = t.type(v)  # may round (float32 / float16) or overflow to inf (float16)
+        return x, real_spec(x)
+    if kind == "np_bool":
+        # a numpy bool is not a Python bool: it converts to the integer 0 / 1 and is accepted as such (documented here)
+        return np.bool_(v % 2), {"t": "real", "v": str(v % 2)}
+    if kind == "fraction":
+        return Fraction(v), {"t": "real", "v": str(v)}
+    if kind == "fraction_frac":
+        return Fraction(2 * v + 1, 2), {"t": "real", "v": frac_str(Fraction(2 * v + 1, 2))}
+    if kind == "decimal":
+        return decimal.Decimal(v), {"t": "real", "v": str(v)}
     if kind == "str":
         return str(v), {"t": "other"}
     if kind == "nan":
         return float("nan"), {"t": "other"}
+    if kind == "other":
+        # objects that are not numbers equal to an integer - the falsy ones first
+        objs = ["", b"", [], (), {}, 0j, "0", str(v), b"7", [v], (v,), {v: v}, complex(v, 0), float("nan"), float("inf"), float("-inf"),
+                complex(0, 1)]
+        assert len(objs) == N_OTHER
+        return objs[case.get("which", 7) % N_OTHER], {"t": "other"}
     raise ValueError(kind)
 
 
@@ -570,6 +730,154 @@ def run_astate(ctx: Ctx, case: dict) -> list[str]:
     return probs
 
 
+def observe(x) -> tuple:
+    """everything the API tells about a state value, as fresh plain Python data"""
+    ann = isinstance(x, AnnotatedState)
+    cp = (lambda e: list(e)) if ann else (lambda e: e)
+    return (json.dumps(x.s), str(x), repr(x), hash(x), x.n_photons, x.n_modes, len(x), json.dumps([cp(e) for e in x]),
+            json.dumps([cp(x[i]) for i in range(len(x))]), json.dumps(x[:].s))
+
+
+def mutate(h, name: str, val: int) -> bool:
+    """in-place change of a list obtained from the API -> whether something was changed"""
+    before = json.dumps(h)
+    try:
+        if name == "append":
+            h.append(val)
+        elif name == "clear":
+            h.clear()
+        elif name == "setitem":
+            h[0] = val
+        elif name == "sort":
+            h.sort(reverse=True)
+        elif name == "reverse":
+            h.reverse()
+        elif name == "extend":
+            h.extend([val, val])
+        elif name == "iadd":
+            h += [val]
+        elif name == "pop":
+            h.pop()
+        elif name == "insert":
+            h.insert(0, val)
+        elif name == "del":
+            del h[:]
+        elif name == "imul":
+            h *= 2
+        elif name == "inner":
+            if h and isinstance(h[0], list):
+                h[0].append(val)
+            else:
+                h.append(val)
+    except (IndexError, TypeError):
+        return False
+    return json.dumps(h) != before
+
+
+def run_alias(ctx: Ctx, case: dict) -> list[str]:
+    """no model counterpart (the model's client world has three ways to obtain a value): the immutability clause on the
+    implementation, for values obtained by every accessor of the public API and changed by every in-place list operation"""
+    import copy as copymod
+
+    typ = case["type"]
+    ann = typ == "astate"
+    cls = AnnotatedState if ann else State
+    mk = (lambda v: AnnotatedState([list(r) for r in v])) if ann else (lambda v: State(list(v)))
+    st = mk(case["v"])
+    ctx.count("alias:oracle-only")
+    watch = [("the state", st, observe(st))]  # every state value seen so far, with what it looked like when first seen
+    handles: list = []  # (mutable list, accessor it came from)
+
+    def see(name, obj):
+        """a derived state: watch it, and harvest the lists its own accessors hand out"""
+        watch.append((name, obj, observe(obj)))
+        handles.append((obj.s, name + ".s"))
+        if ann:
+            handles.extend((r, name + ".s[i]") for r in obj.s)
+            handles.extend((obj[i], name + "[i]") for i in range(len(obj)))
+            handles.extend((r, "iteration of " + name) for r in obj)
+        else:
+            handles.append((list(obj), "list(" + name + ")"))
+
+    for op in case["prog"]:
+        acc = op[0]
+        if acc == "mut":
+            if not handles:
+                continue
+            h, src = handles[op[1] % len(handles)]
+            changed = mutate(h, op[2], op[3])
+            ctx.count("alias:mutation:" + op[2] + (":effective" if changed else ":no-op"))
+            for name, obj, was in watch:
+                now = ires(lambda: observe(obj))
+                if now != ("ok", was):
+                    fields = ["s", "str", "repr", "hash", "n_photons", "n_modes", "len", "iteration", "integer subscripts", "full slice"]
+                    diff = [f for f, a, b in zip(fields, was, now[1]) if a != b] if now[0] == "ok" else ["reading it raises"]
+                    return [f"oracle: aliasing: {cls.__name__} value changed through <{src}>: after {op[2]} on the list it "
+                            f"returned, {name} built from {case['v']} reads {now[1][0] if now[0] == 'ok' else now} "
+                            f"(was {was[0]}; changed: {', '.join(diff)})"]
+            continue
+        ctx.count(f"alias:{typ}:{acc}")
+        try:
+            if acc == "s":
+                out = st.s
+                handles.append((out, ".s"))
+                if ann:
+                    handles.extend((r, ".s[i]") for r in out)
+            elif acc == "s_row":
+                handles.append((st.s[op[1]], ".s[i]"))
+            elif acc == "getitem":
+                handles.append((st[op[1]], "obj[i]"))
+            elif acc == "list":
+                out = list(st)
+                handles.append((out, "list(obj)"))
+                if ann:
+                    handles.extend((r, "iteration") for r in out)
+            elif acc == "for":
+                for r in st:
+                    handles.append((r, "iteration"))
+            elif acc == "next":
+                handles.append((next(iter(st)), "next(iter(obj))"))
+            elif acc == "unpack":
+                out = [*st]
+                handles.append((out, "[*obj]"))
+                if ann:
+                    handles.extend((r, "[*obj]") for r in out)
+            elif acc == "reversed":
+                out = list(reversed(st))
+                handles.append((out, "reversed(obj)"))
+                if ann:
+                    handles.extend((r, "reversed(obj)") for r in out)
+            elif acc == "slice":
+                see(f"obj[{op[1]}:{op[2]}:{op[3]}]", st[sl(op[1:])])
+            elif acc in ("add", "radd"):
+                o = mk(op[1])
+                watch.append(("the other operand of +", o, observe(o)))
+                see("obj + other" if acc == "add" else "other + obj", st + o if acc == "add" else o + st)
+            elif acc == "merge":
+                o = mk(op[1])
+                watch.append(("the argument of merge", o, observe(o)))
+                see("obj.merge(other)", st.merge(o))
+            elif acc == "copy":
+                see("copy.copy(obj)", copymod.copy(st))
+            elif acc == "deepcopy":
+                see("copy.deepcopy(obj)", copymod.deepcopy(st))
+            elif acc == "ctor":
+                see(f"{cls.__name__}(values of obj)", AnnotatedState(st.s) if ann else State(st))
+            elif acc == "heralds":
+                handles.append((add_heralds_to_state(st, {}), "add_heralds_to_state(obj, {})"))
+                handles.append((remove_heralds_from_state(st, []), "remove_heralds_from_state(obj, [])"))
+                if len(st):
+                    handles.append((remove_heralds_from_state(st, [0]), "remove_heralds_from_state(obj, [0])"))
+                    handles.append((add_heralds_to_state(st, {0: 1}), "add_heralds_to_state(obj, {0: 1})"))
+            else:
+                raise ValueError(acc)
+        except (IndexError, StopIteration, ValueError) as e:
+            if isinstance(e, ValueError) and acc not in ("merge", "slice"):
+                raise
+            ctx.count(f"alias:{typ}:{acc}:not-applicable")
+    return []
+
+
 def run_heralds(ctx: Ctx, case: dict) -> list[str]:
     probs: list[str] = []
     s, hl, modes = list(case["s"]), case["h"], list(case["modes"])
@@ -611,6 +919,17 @@ def run_heralds(ctx: Ctx, case: dict) -> list[str]:
             mb = mres(model["remove_of_add"], "remove_heralds")
             if mb != ("ok", s):
                 probs.append(f"corr: model round trip gives {mb}")
+    # two-step probe: what the helpers return belongs to the caller; changing it must not reach the argument
+    for hh in ({}, dict(h) if in_range else {}):
+        a2 = State(list(s)) if case.get("as_state") else list(s)
+        t2 = ires(lambda: add_heralds_to_state(a2, dict(hh)))
+        t3 = ires(lambda: remove_heralds_from_state(a2, []))
+        for t in (t2, t3):
+            if t[0] == "ok" and isinstance(t[1], list):
+                t[1].append(99)
+                t[1].reverse()
+        if (a2.s if isinstance(a2, State) else a2) != s or (isinstance(a2, State) and (str(a2) != str(State(list(s))) or a2.n_photons != sum(s))):
+            probs.append(f"oracle: changing the list returned by add_heralds_to_state / remove_heralds_from_state changed the argument {s}")
     # plain removal
     rem = ires(lambda: remove_heralds_from_state(list(s), list(modes)))
     mr = mres(model["remove"], "remove_heralds")
@@ -637,10 +956,45 @@ def run_db(ctx: Ctx, case: dict) -> list[str]:
     probs: list[str] = []
     mode = case["mode"]
     ctx.count("db:" + mode)
+    if mode == "guard" and "special" in case:
+        # values a rational cannot express; the clauses of the property only (no model)
+        ctx.count("db:guard:" + case["special"] + ":oracle-only")
+        sp = {"inf": float("inf"), "-inf": float("-inf"), "-0.0": -0.0, "nextafter(1,2)": math.nextafter(1.0, 2.0),
+              "nextafter(0,-1)": math.nextafter(0.0, -1.0), "int0": 0, "int1": 1, "1e300": 1e300}[case["special"]]
+        got = ires(lambda: decimal_to_db_loss(sp))
+        want = ("ok", 0.0) if sp == 0 else ("err", "ValueError")
+        if got != want:
+            probs.append(f"oracle: decimal_to_db_loss({sp!r}) = {got}, expected {want} (only values in [0, 1) are converted)")
+        return probs
+    if mode == "large":
+        x = float(case["x"])
+        ctx.count("db:large:oracle-only")
+        d = ires(lambda: db_loss_to_decimal(x))
+        if d[0] != "ok" or not (0.999999 <= d[1] <= 1):
+            probs.append(f"oracle: db_loss_to_decimal({x}) = {d} is not a loss just below (or, after rounding, equal to) 1")
+            return probs
+        if db_loss_to_decimal(-x) != d[1]:
+            probs.append("oracle: db_loss_to_decimal depends on the sign of its argument")
+        if db_loss_to_decimal(x / 2) > d[1] or db_loss_to_decimal(abs(x) + 1) < d[1]:
+            probs.append(f"oracle: db_loss_to_decimal is not monotone in the size of the loss around {x}")
+        b = ires(lambda: decimal_to_db_loss(d[1]))
+        if d[1] == 1:
+            ctx.count("db:large:rounds-to-total-loss")
+            if b != ("err", "ValueError"):
+                probs.append(f"oracle: decimal_to_db_loss(1.0) = {b}, a ValueError is documented")
+        elif b[0] != "ok" or b[1] < 0 or abs(b[1] - abs(x)) > db_tol(x):
+            probs.append(f"oracle: decimal_to_db_loss(db_loss_to_decimal({x})) = {b}, expected {abs(x)} within {db_tol(x)}")
+        return probs
     if mode == "guard":
         l = Fraction(case["l"])
         got = ires(lambda: decimal_to_db_loss(float(l)))
         lf = Fraction(float(l))  # what the code actually sees
+        if 0 < lf < 1:
+            # inside the domain after all (no exact power of ten for the model's table): the clause on the implementation only
+            ctx.count("db:guard:inside-after-rounding:oracle-only")
+            if got[0] != "ok" or got[1] < 0:
+                probs.append(f"oracle: decimal_to_db_loss({float(l)!r}) = {got} for a loss inside [0, 1)")
+            return probs
         table = [["0", "1"]] if lf == 0 else []
         m = mres(ctx.model.call({"op": "sv", "kind": "db", "fn": "to_db", "x": frac_str(lf), "table": table}), "to_db")
         exp_err = lf < 0 or lf >= 1
@@ -666,21 +1020,37 @@ def run_db(ctx: Ctx, case: dict) -> list[str]:
             probs.append(f"oracle: db_loss_to_decimal({x}) = {got[1]}, expected 1 - {p}")
         if got[0] == "ok" and db_loss_to_decimal(-x) != got[1]:
             probs.append("oracle: db_loss_to_decimal depends on the sign of its argument")
+        if p == 1:
+            ctx.count("db:pair:0dB")
+            if got != ("ok", 0.0):
+                probs.append(f"oracle: db_loss_to_decimal({x!r}) = {got}, 0 dB is no loss")
         if p < 1 or True:
             l = 1 - p
             mb = mres(ctx.model.call({"op": "sv", "kind": "db", "fn": "to_db", "x": frac_str(l), "table": table}), "to_db")
             gb = ires(lambda: decimal_to_db_loss(float(l)))
-            tol = db_tol(x)
+            # the float handed over is the decimal loss exactly (then 1 - loss is exact as well) or a rounding of it
+            exact = Fraction(float(l)) == l
+            ctx.count("db:pair:" + ("decimal-exact-in-float" if exact else "decimal-rounded") +
+                      (":loss-near-1" if p < Fraction(1, 1000) else ":loss-near-0" if p > Fraction(999, 1000) else ""))
+            tol = 1e-9 if exact else db_tol(x)
             if gb[0] != mb[0] or (gb[0] == "ok" and abs(gb[1] - float(Fraction(mb[1]))) > tol):
                 probs.append(f"corr: decimal_to_db_loss({float(l)}): impl={gb} model={mb}")
             if gb[0] == "ok" and (gb[1] < 0 or abs(gb[1] - abs(x)) > tol):
                 probs.append(f"oracle: decimal_to_db_loss(1 - {p}) = {gb[1]}, expected {abs(x)}")
         return probs
     x = float(case["x"])
-    d = ires(lambda: db_loss_to_decimal(x))
+    xa = db_arg(x, case.get("argtype", "float"))
+    ctx.count("db:round:arg:" + case.get("argtype", "float") + (":zero" if x == 0 else ":negative" if x < 0 else ""))
+    d = ires(lambda: db_loss_to_decimal(xa))
+    if d[0] == "ok":
+        d = ("ok", float(d[1]))
     if d[0] != "ok" or not (0 <= d[1] < 1):
-        probs.append(f"oracle: db_loss_to_decimal({x}) = {d} is not a loss in [0, 1)")
+        probs.append(f"oracle: db_loss_to_decimal({xa!r}) = {d} is not a loss in [0, 1)")
         return probs
+    if x == 0 and d[1] != 0:
+        probs.append(f"oracle: db_loss_to_decimal({xa!r}) = {d[1]}, 0 dB is no loss")
+    if abs(d[1] - float(db_loss_to_decimal(x))) > 1e-6 * max(d[1], 1e-300) + 1e-12 or db_loss_to_decimal(-x) != db_loss_to_decimal(x):
+        probs.append(f"oracle: db_loss_to_decimal({xa!r}) differs from the value for the float {x} / for the opposite sign")
     b = ires(lambda: decimal_to_db_loss(d[1]))
     if b[0] != "ok" or abs(b[1] - abs(x)) > db_tol(x):
         probs.append(f"oracle: decimal_to_db_loss(db_loss_to_decimal({x})) = {b}, expected {abs(x)}")
@@ -706,16 +1076,23 @@ def perm_contract_ok() -> bool:
     return _PERM_CONTRACT["ok"]
 
 
+BIG_N = 12  # two different orders of 12 rows coincide with probability 1/12!
+
+
 def run_rand(ctx: Ctx, case: dict) -> list[str]:
     probs: list[str] = []
     n, kind = case["N"], case["seed_kind"]
-    seed, mseed = make_seed(kind, case["v"])
-    ctx.count("rand:seed:" + kind)
+    seed, mseed = make_seed(kind, case["v"], case)
+    ctx.count("rand:seed:" + kind + (":" + case["np"] if "np" in case else ""))
     ms = mres(ctx.model.call({"op": "sv", "kind": "seed", "seed": mseed}), "seed")
-    with warnings.catch_warnings():
-        warnings.simplefilter("ignore")
-        p1 = ires(lambda: random_permutation(n, seed))
-        u1 = ires(lambda: random_unitary(n, seed))
+
+    def quiet(f):
+        with warnings.catch_warnings():
+            warnings.simplefilter("ignore")
+            return ires(f)
+
+    p1 = quiet(lambda: random_permutation(n, seed))
+    u1 = quiet(lambda: random_unitary(n, seed))
     # numpy / scipy accept only part of the integers as a seed (documented contract of the externals):
     # default_rng needs seed >= 0, scipy's RandomState needs 0 <= seed < 2**32; outside they raise ValueError
     def expected(lo_ok, hi):
@@ -731,7 +1108,16 @@ def run_rand(ctx: Ctx, case: dict) -> list[str]:
         if r[0] != e[0] or (r[0] == "err" and r[1] != e[1]):
             probs.append(f"corr: {nm}({n}, seed={seed!r}): impl={r[0], r[1] if r[0] == 'err' else '...'} "
                          f"model seed processing={ms}, expected outcome {e}")
-    if ms[0] == "err" or p1[0] == "err":
+    if ms[0] == "err":
+        ctx.count("rand:seed:refused")
+        if mseed["t"] in ("bool", "other") or (mseed["t"] == "real" and Fraction(mseed["v"]).denominator != 1):
+            # documented: anything but an integer (or a number equal to one) raises TypeError - also when it is falsy
+            for nm, r in (("random_permutation", p1), ("random_unitary", u1)):
+                if r != ("err", "TypeError"):
+                    probs.append(f"oracle: {nm}({n}, seed={seed!r}) -> {r[0] if r[0] == 'ok' else r}; a seed that is not an "
+                                 "integer raises TypeError")
+        return probs
+    if p1[0] == "err":
         return probs
     if u1[0] == "err":
         u1 = ("ok", np.identity(n))
@@ -749,28 +1135,44 @@ def run_rand(ctx: Ctx, case: dict) -> list[str]:
         probs.append(f"oracle: random_unitary({n}, {seed!r}) is not unitary")
     if seed is None:
         return probs
-    # reproducibility
-    if not np.array_equal(random_permutation(n, seed), p):
-        probs.append(f"oracle: random_permutation({n}, {seed!r}) is not reproducible")
-    if seed_u is not None and not np.array_equal(random_unitary(n, seed), u):
-        probs.append(f"oracle: random_unitary({n}, {seed!r}) is not reproducible")
-    if ms[1] is not None and kind != "int":
+    k = int(ms[1])
+    ctx.count("rand:seed-value:" + ("0" if k == 0 else "1" if k == 1 else "2^32-1" if k == 2 ** 32 - 1 else
+                                    ">=2^32" if k >= 2 ** 32 else "<0" if k < 0 else "other"))
+    # reproducibility: the same seed, every time (a larger permutation as well: small ones coincide by chance)
+    pb = quiet(lambda: random_permutation(BIG_N, seed))
+    for _ in range(2):
+        if not np.array_equal(random_permutation(n, seed), p) or not np.array_equal(random_permutation(BIG_N, seed), pb[1]):
+            probs.append(f"oracle: random_permutation(N, {seed!r}) is not reproducible")
+            break
+        if seed_u is not None and not np.array_equal(random_unitary(n, seed), u):
+            probs.append(f"oracle: random_unitary({n}, {seed!r}) is not reproducible")
+            break
+    if kind != "int":
         # a seed that converts to the integer k behaves like k
-        if not np.array_equal(random_permutation(n, int(ms[1])), p):
-            probs.append(f"oracle: seed {seed!r} does not behave like the integer {ms[1]}")
+        if not np.array_equal(random_permutation(BIG_N, k), pb[1]) or not np.array_equal(random_permutation(n, k), p):
+            probs.append(f"oracle: seed {seed!r} does not behave like the integer {k} (random_permutation)")
+        if seed_u is not None and not np.array_equal(random_unitary(n, k), u):
+            probs.append(f"oracle: seed {seed!r} does not behave like the integer {k} (random_unitary)")
+    # the seed is used: a neighbouring seed gives another matrix
+    other = k + 1 if k + 1 < 2 ** 32 or k >= 2 ** 32 else k - 1
+    ctx.count("rand:compared-with-a-different-seed")
+    if np.array_equal(random_permutation(BIG_N, other), pb[1]):
+        probs.append(f"oracle: random_permutation({BIG_N}, seed) is the same for the seeds {k} and {other}: the seed is not used")
+    if seed_u is not None and np.array_equal(random_unitary(n, other), u):
+        probs.append(f"oracle: random_unitary({n}, seed) is the same for the seeds {k} and {other}: the seed is not used")
     # model of the permutation given numpy's order (the tape)
-    if perm_contract_ok() and ms[1] is not None and int(ms[1]) >= 0:
+    if perm_contract_ok() and k >= 0:
         ctx.count("rand:perm:model-compared")
-        sigma = [int(k) for k in np.random.default_rng(int(ms[1])).permutation(n)]
+        sigma = [int(x) for x in np.random.default_rng(k).permutation(n)]
         mp = mres(ctx.model.call({"op": "sv", "kind": "perm", "N": n, "sigma": sigma, "seed": mseed}), "perm")
         if mp[0] != "ok" or [[complex(Fraction(e.split(",")[0]), Fraction(e.split(",")[1])) for e in row] for row in mp[1]] != p.tolist():
             probs.append(f"corr: random_permutation({n}, {seed!r}) differs from the rows of the identity in numpy's order")
     return probs
 
 
-RUNNERS = {"state": run_state, "astate": run_astate, "heralds": run_heralds, "db": run_db, "rand": run_rand}
+RUNNERS = {"state": run_state, "astate": run_astate, "heralds": run_heralds, "db": run_db, "rand": run_rand, "alias": run_alias}
 GENS = {"state": gen_state_case, "astate": gen_astate_case, "heralds": gen_heralds_case, "db": gen_db_case,
-        "rand": gen_rand_case}
+        "rand": gen_rand_case, "alias": gen_alias_case}
 
 
 def run_case(ctx: Ctx, case: dict) -> list[str]:
@@ -787,6 +1189,8 @@ def nontrivial(case: dict) -> bool:
         return len(case["h"]) >= 1 and len(case["s"]) >= 1
     if k == "db":
         return case["mode"] != "guard" and case.get("x", 1) != 0
+    if k == "alias":
+        return len(case["v"]) >= 2 and any(op[0] == "mut" for op in case["prog"])
     return case["N"] >= 2
 
 
@@ -818,6 +1222,8 @@ def shrink(ctx: Ctx, case: dict) -> dict:
                 else:
                     break
         cur = {**cur, "rows": rows}
+    if cur["kind"] == "alias" and len(cur["prog"]) > 1:
+        cur = {**cur, "prog": ddmin(cur["prog"], lambda sub: fails({**cur, "prog": sub}))}
     if cur["kind"] == "heralds" and len(cur["h"]) > 1:
         cur = {**cur, "h": ddmin(cur["h"], lambda sub: fails({**cur, "h": sub}))}
     return cur if fails(cur) else case
@@ -881,22 +1287,60 @@ def misc_probes(ctx: Ctx) -> None:
     ctx.case("misc-probes", True)
 
 
+def directed_corpus() -> list:
+    """the shapes most likely to be mishandled, always run first (in general form: every kind x every boundary)"""
+    out = alias_corpus()
+    # seeds: every kind at the boundary values
+    for kind in dict.fromkeys(SEED_KINDS):
+        if kind == "np_int":
+            for t in NP_INTS:
+                out += [{"kind": "rand", "N": 3, "seed_kind": kind, "np": t, "v": v} for v in (0, 1, int(np.iinfo(t).max))]
+        elif kind == "np_float":
+            for t in dict.fromkeys(NP_FLOATS):
+                out += [{"kind": "rand", "N": 3, "seed_kind": kind, "np": t, "v": v} for v in (0, 1, 2048, 2 ** 32 - 1, 2 ** 32)]
+        elif kind == "other":
+            out += [{"kind": "rand", "N": 2, "seed_kind": kind, "which": w, "v": 5} for w in range(N_OTHER)]
+        else:
+            out += [{"kind": "rand", "N": n, "seed_kind": kind, "v": v}
+                    for n, v in ((3, 0), (1, 0), (4, 1), (3, 2 ** 32 - 1), (3, 2 ** 32), (2, 2 ** 53), (3, 2 ** 63 - 1))]
+    out.append({"kind": "rand", "N": 3, "seed_kind": "float_int", "v": 0, "negzero": True})
+    # dB: 0 dB in both sign conventions and every argument type, losses next to 0 and next to 1, very large values, the guard
+    for p in ("1", "1/2", "1/4503599627370496", "4503599627370495/4503599627370496", "1/1000000000000000", "999999/1000000", "1/10"):
+        out += [{"kind": "db", "mode": "pair", "p": p, "neg": neg} for neg in (False, True)]
+    for x in (0.0, -0.0, 3.0, -3.0, 60.0, -60.0, 1e-300, -1e-12):
+        out.append({"kind": "db", "mode": "round", "x": x})
+        if x == int(x):
+            out += [{"kind": "db", "mode": "round", "x": x, "argtype": t} for t in dict.fromkeys(DB_ARGTYPES)]
+    for x in DB_LARGE:
+        out += [{"kind": "db", "mode": "large", "x": x}, {"kind": "db", "mode": "large", "x": -x}]
+    out += [{"kind": "db", "mode": "guard", "special": sp} for sp in DB_SPECIAL]
+    out += [{"kind": "db", "mode": "guard", "l": l} for l in ("0", "1", "-1/8", "2", "18014398509481983/18014398509481984",
+                                                              "4503599627370497/4503599627370496", "-1/1152921504606846976")]
+    return out
+
+
 def run(ctx: Ctx) -> None:
     ctx.rule = ("generated State / AnnotatedState values with 2-8 API queries each (int and slice subscripts incl. negative "
-                "indices and steps, +, merge, ==/hash, refused assignments, client programs mutating returned values), herald "
-                "dictionaries in arbitrary key order with removal lists, exact dB pairs and float round trips, seeded random "
-                "matrices for every seed kind; ~15% malformed requests; non-trivial = >=2 modes and >=2 queries / a mode with "
-                ">=2 labels / >=1 herald on a non-empty state / a non-zero dB value / N>=2; distinct = distinct case")
+                "indices and steps, +, merge, ==/hash, refused assignments, client programs mutating returned values), two-step "
+                "aliasing probes (every accessor x every in-place list operation, also on derived states), herald "
+                "dictionaries in arbitrary key order with removal lists, exact dB pairs (0 dB, losses next to 0 and next to 1), "
+                "float round trips in either sign convention and argument type, very large dB values, the guard at and around "
+                "0 and 1, seeded random matrices for every seed kind at boundary and random seed values (reproducible, equal to "
+                "the integer seed, different from a neighbouring seed); a directed corpus runs first; ~15% malformed requests; "
+                "non-trivial = >=2 modes and >=2 queries / a mode with >=2 labels / >=1 herald on a non-empty state / a non-zero "
+                "dB value / N>=2 / a mutated handle of a >=2-mode state; distinct = distinct case")
     selftest(ctx)
     SIZE["big"] = ctx.thorough
     rng = ctx.rng
     plan = [("state", ctx.n(1500, 25000)), ("astate", ctx.n(1500, 25000)), ("heralds", ctx.n(2000, 40000)),
-            ("db", ctx.n(600, 10000)), ("rand", ctx.n(250, 3000))]
+            ("db", ctx.n(800, 10000)), ("rand", ctx.n(300, 3000)), ("alias", ctx.n(1500, 20000))]
     misc_probes(ctx)
     # the literal witness of F14 is always part of the run
     corpus = [{"kind": "astate", "rows": [[0], [1]], "q": [["client", [["getRow", 0], ["append", 0, 5]]]]},
               {"kind": "state", "s": [1, 0], "q": [["eq", [1, 0]]]}]
+    corpus += directed_corpus()
     todo = [(c["kind"], c) for c in corpus]
+    ctx.count("corpus", len(corpus))
     for kind, cnt in plan:
         todo.extend((kind, None) for _ in range(cnt))
     nsample = {}
@@ -916,10 +1360,23 @@ def run(ctx: Ctx) -> None:
             report(ctx, small, sprobs)
 
 
+RAND_DEFECTS = ["is not reproducible", "does not behave like the integer", "the seed is not used", "is not a permutation matrix",
+                "is not unitary", "a seed that is not an integer raises TypeError"]
+
+
 def signature(case: dict, problem: str) -> dict:
     sig = {"kind": case["kind"]}
     if case["kind"] == "astate" and "hands out the internal label list" in problem:
         sig["defect"] = "AnnotatedState.__getitem__(int) returns the internal list"
+    elif case["kind"] == "rand" and any(k in problem for k in RAND_DEFECTS):
+        fn = "random_unitary" if "random_unitary" in problem else "random_permutation"
+        sig["defect"] = fn + ": " + next(k for k in RAND_DEFECTS if k in problem)
+    elif case["kind"] == "alias":
+        import re
+
+        m = re.search(r"through <([^>]*)>", problem)
+        src = re.sub(r"\[[^\]]*:[^\]]*\]", "[slice]", m.group(1)) if m else "?"
+        sig["defect"] = f"{case['type']} value aliases what {src} returned"
     else:
         import re
 
